@@ -968,8 +968,25 @@ def r5_lifespan(run):
     for kind, (lp, call) in sorted(found.items()):
         phase = 'startup' if kind == 'process_startup' else 'shutdown'
         it = lp.iter
+        # the iterable may be held in a local bound once (`handlers = list(reversed(self._unprepared_middleware))`);
+        # list()/tuple() copies keep the order
+        hops = 0
+        while hops < 4:
+            hops += 1
+            if isinstance(it, ast.Name):
+                binds = [a for a in walk_self(f.node) if isinstance(a, ast.Assign) and any(isinstance(t, ast.Name) and t.id == it.id for t in a.targets)]
+                stores = sum(1 for x in walk_self(f.node) if isinstance(x, ast.Name) and x.id == it.id and isinstance(x.ctx, (ast.Store, ast.Del)))
+                if len(binds) == 1 and stores == 1 and len(binds[0].targets) == 1:
+                    it = binds[0].value
+                    continue
+            if isinstance(it, ast.Call) and isinstance(it.func, ast.Name) and it.func.id in ('list', 'tuple', 'enumerate') and len(it.args) == 1 and not it.keywords:
+                it = it.args[0]  # order-preserving wrappers (enumerate only adds an index)
+                continue
+            break
         is_rev = isinstance(it, ast.Call) and isinstance(it.func, ast.Name) and it.func.id == 'reversed'
         base = it.args[0] if is_rev else it
+        if isinstance(base, ast.Call) and isinstance(base.func, ast.Name) and base.func.id in ('list', 'tuple') and len(base.args) == 1:
+            base = base.args[0]
         run.check(is_self_attr(base, '_unprepared_middleware'), 'lifespan %s iterates the registered middleware list' % phase, f, it)
         if phase == 'startup':
             run.check(not is_rev and not (isinstance(it, ast.Subscript)), 'startup handlers run in registration order', f, it)
